@@ -1,5 +1,294 @@
-//! C06 - monitor not written yet.
+//! C06 - best_match returns the matching candidate with the highest version;
+//! argument order and reduction order do not matter.
 
-use crate::fw::Cx;
+use crate::corpus;
+use crate::fw::{CaseResult, Cx, Ev, Tier};
+use crate::gen::version as gv;
+use crate::oracle::dewey::{self as od, Weight};
+use crate::oracle::pattern as opat;
+use crate::rng::{hash_strs, Rng};
+use pkgsrc::Pattern;
+use std::cmp::Ordering;
 
-pub fn run(_cx: &mut Cx) {}
+const PATS: [(&str, &[&str]); 8] = [
+    ("p-*", &["p"]),
+    ("{foo,bar}-[0-9]*", &["foo", "bar", "baz"]),
+    ("p>=1<3", &["p", "q"]),
+    ("p>0", &["p", "pp"]),
+    ("*-[0-9]*", &["a", "b", "p-x", "zz"]),
+    ("{a,b,c}{,x}>=1", &["a", "b", "c", "ax", "cx", "d"]),
+    ("?oo-*", &["foo", "boo", "Foo", "fo"]),
+    ("*", &["p", "q", "foo-bar"]),
+];
+
+const EQUAL_SPELLINGS: [&[&str]; 5] = [
+    &["1.0", "1.0.0", "1_0", "1pl0", "1.0nb0", "1.0pl", "1.0_", "1.0."],
+    &["2", "2.0", "2pl", "2.", "2nb0", "02", "2_0"],
+    &["1.5rc1", "1.5pre1", "1.5RC1", "1.5Pre1"],
+    &["1.0alpha", "1.0ALPHA", "1.0alpha0", "1_0alpha"],
+    &["3nb1", "3.0nb1", "3nb01", "3pl0nb1", "3NB1"],
+];
+
+fn version(r: &mut Rng) -> String {
+    match r.below(6) {
+        0 | 1 => {
+            let grp = EQUAL_SPELLINGS[r.below(EQUAL_SPELLINGS.len())];
+            grp[r.below(grp.len())].to_string()
+        }
+        2 => format!("{}.{}", r.below(4), r.below(4)),
+        3 => gv::v(r),
+        _ => gv::v_safe(r),
+    }
+}
+
+/// Order of two versions: the reference where it is K1-free, otherwise the
+/// real order observed through a comparison pattern (C01/C03 establish it).
+fn vorder(a: &str, b: &str) -> Result<Ordering, crate::fw::Fail> {
+    if gv::usable(a) && gv::usable(b) && od::k1_free(a, b) {
+        return Ok(od::order(a, b, Weight::Rank));
+    }
+    if !gv::usable(a) || !gv::usable(b) {
+        return Err("harness: version outside the usable domain".into());
+    }
+    let gt = Pattern::new(&format!("v>{b}")).map_err(|e| format!("Pattern::new failed: {e}"))?.matches(&format!("v-{a}"));
+    let lt = Pattern::new(&format!("v<{b}")).map_err(|e| format!("Pattern::new failed: {e}"))?.matches(&format!("v-{a}"));
+    Ok(match (gt, lt) {
+        (true, false) => Ordering::Greater,
+        (false, true) => Ordering::Less,
+        (false, false) => Ordering::Equal,
+        (true, true) => return Err(format!("real order says both {a:?} > {b:?} and {a:?} < {b:?}").into()),
+    })
+}
+
+fn ver_of(name: &str) -> &str {
+    match name.rfind('-') {
+        Some(i) => &name[i + 1..],
+        None => "",
+    }
+}
+
+fn combine<'a>(p: &Pattern, a: Option<&'a str>, b: Option<&'a str>) -> Option<&'a str> {
+    match (a, b) {
+        (Some(x), Some(y)) => p.best_match(x, y),
+        (Some(x), None) | (None, Some(x)) => p.best_match(x, x),
+        (None, None) => None,
+    }
+}
+
+fn permutations(n: usize) -> Vec<Vec<usize>> {
+    fn go(k: usize, cur: &mut Vec<usize>, used: &mut Vec<bool>, out: &mut Vec<Vec<usize>>) {
+        if cur.len() == k {
+            out.push(cur.clone());
+            return;
+        }
+        for i in 0..k {
+            if !used[i] {
+                used[i] = true;
+                cur.push(i);
+                go(k, cur, used, out);
+                cur.pop();
+                used[i] = false;
+            }
+        }
+    }
+    let mut out = vec![];
+    go(n, &mut vec![], &mut vec![false; n], &mut out);
+    out
+}
+
+/// Reduce `items` with a random bracketing described by a list of split
+/// choices consumed from `splits`.
+fn bracket<'a>(p: &Pattern, items: &[Option<&'a str>], splits: &mut std::slice::Iter<usize>) -> Option<&'a str> {
+    if items.len() == 1 {
+        // a singleton is "reduced" through best_match(x, x) so non-matching
+        // candidates become None
+        return combine(p, items[0], None);
+    }
+    let k = 1 + splits.next().copied().unwrap_or(0) % (items.len() - 1);
+    let l = bracket(p, &items[..k], splits);
+    let r = bracket(p, &items[k..], splits);
+    combine(p, l, r)
+}
+
+fn check_list(ev: &mut Ev, pt: &str, names: &[String], splits: &[Vec<usize>]) -> CaseResult {
+    let p = Pattern::new(pt).map_err(|e| format!("Pattern::new({pt:?}) failed: {e}"))?;
+    // expected winner
+    let matching: Vec<&String> = names.iter().filter(|n| p.matches(n)).collect();
+    let mut best: Option<&String> = None;
+    let mut ties = 0;
+    for m in &matching {
+        best = Some(match best {
+            None => m,
+            Some(b) => match vorder(ver_of(m), ver_of(b))? {
+                Ordering::Greater => m,
+                Ordering::Less => b,
+                Ordering::Equal => {
+                    if m.as_str() != b.as_str() {
+                        ties += 1;
+                    }
+                    if m.as_str() < b.as_str() {
+                        m
+                    } else {
+                        b
+                    }
+                }
+            },
+        });
+    }
+    let want = best.map(|s| s.as_str());
+    ev.count(&format!("matching-candidates/{}", matching.len().min(4)));
+    if ties > 0 {
+        ev.count("lists-with-ties");
+    }
+    // pairwise laws on every ordered pair
+    for x in names {
+        for y in names {
+            let got = p.best_match(x, y);
+            ev.eval();
+            let (mx, my) = (p.matches(x), p.matches(y));
+            let exp: Option<&str> = match (mx, my) {
+                (false, false) => None,
+                (true, false) => Some(x),
+                (false, true) => Some(y),
+                (true, true) => Some(match vorder(ver_of(x), ver_of(y))? {
+                    Ordering::Greater => x.as_str(),
+                    Ordering::Less => y.as_str(),
+                    Ordering::Equal => {
+                        if x.as_str() <= y.as_str() {
+                            x.as_str()
+                        } else {
+                            y.as_str()
+                        }
+                    }
+                }),
+            };
+            if got != exp {
+                return Err(format!(
+                    "best_match({pt:?}, {x:?}, {y:?}) = {got:?}, expected {exp:?} (matches: {mx}, {my})"
+                )
+                .into());
+            }
+            let rev = p.best_match(y, x);
+            if rev != got {
+                return Err(format!("best_match({pt:?}, {x:?}, {y:?}) = {got:?} but with arguments swapped = {rev:?}").into());
+            }
+        }
+    }
+    // every permutation of the left fold
+    let items: Vec<Option<&str>> = names.iter().map(|s| Some(s.as_str())).collect();
+    for perm in permutations(names.len()) {
+        let mut acc: Option<&str> = combine(&p, items[perm[0]], None);
+        for &i in &perm[1..] {
+            acc = combine(&p, acc, combine(&p, items[i], None));
+        }
+        ev.eval();
+        ev.count("reductions/left-fold-permutations");
+        if acc != want {
+            return Err(format!(
+                "left fold of {:?} under {pt:?} = {acc:?}, expected winner {want:?}",
+                perm.iter().map(|&i| &names[i]).collect::<Vec<_>>()
+            )
+            .into());
+        }
+    }
+    // random bracketings of random permutations
+    for sp in splits {
+        let perm_idx = sp.first().copied().unwrap_or(0);
+        let perms = permutations(names.len());
+        let perm = &perms[perm_idx % perms.len()];
+        let its: Vec<Option<&str>> = perm.iter().map(|&i| items[i]).collect();
+        let got = bracket(&p, &its, &mut sp[1..].iter());
+        ev.eval();
+        ev.count("reductions/bracketings");
+        if got != want {
+            return Err(format!(
+                "bracketed reduction (shape {:?}) of {:?} under {pt:?} = {got:?}, expected winner {want:?}",
+                &sp[1..],
+                perm.iter().map(|&i| &names[i]).collect::<Vec<_>>()
+            )
+            .into());
+        }
+    }
+    if matching.len() >= 2 {
+        let mut parts: Vec<&[u8]> = vec![pt.as_bytes()];
+        for n in names {
+            parts.push(n.as_bytes());
+        }
+        ev.nontrivial(hash_strs(&parts));
+    }
+    Ok(())
+}
+
+pub fn run(cx: &mut Cx) {
+    cx.default_budget();
+    for k in ["matching-candidates/0", "matching-candidates/1", "matching-candidates/2", "matching-candidates/3", "lists-with-ties", "reductions/left-fold-permutations", "reductions/bracketings"] {
+        cx.ev.require(k);
+    }
+    let n = cx.per_shard(30, 1_500, 25_000, 300_000);
+    let mut r = cx.stream("lists");
+    for _ in 0..n {
+        let (pt, bases) = *r.pick(&PATS);
+        let len = r.range(2, cx.pick_tier(3, 4, 5, 5));
+        let mut names: Vec<String> = vec![];
+        // shared version pool so that ties across bases happen
+        let pool: Vec<String> = (0..3).map(|_| version(&mut r)).collect();
+        for _ in 0..len {
+            let b = *r.pick(bases);
+            let v = if r.chance(2, 3) { r.pick(&pool).clone() } else { version(&mut r) };
+            names.push(match r.below(12) {
+                0 => b.to_string(), // no '-'
+                1 => format!("{b}{v}"),
+                _ => format!("{b}-{v}"),
+            });
+        }
+        let splits: Vec<Vec<usize>> = (0..4).map(|_| (0..8).map(|_| r.below(1000)).collect()).collect();
+        cx.check(
+            || format!("pattern {pt:?} candidates {names:?}"),
+            |ev| check_list(ev, pt, &names, &splits),
+        );
+    }
+
+    // Corpus: real patterns and the real names that share their prefix.
+    if cx.tier != Tier::Mini {
+        let pats = corpus::patterns();
+        let mut names = corpus::names();
+        names.sort();
+        let step = cx.pick_tier(512u64, 128, 16, 2);
+        let mut r = cx.stream("corpus");
+        for (i, p) in pats.iter().enumerate() {
+            let i = i as u64;
+            if i % step != 0 || !cx.mine(i / step) {
+                continue;
+            }
+            if p.contains("{}") || !opat::braces_nested(p) {
+                continue;
+            }
+            let key: String = p.chars().take_while(|c| c.is_ascii_alphanumeric() || *c == '-').take(3).collect();
+            let lo = names.partition_point(|n| n.as_str() < key.as_str());
+            let near: Vec<&String> = names[lo..].iter().take_while(|n| n.starts_with(&key)).take(40).collect();
+            let mut cand: Vec<String> = vec![];
+            for _ in 0..r.range(2, 4) {
+                if !near.is_empty() && r.chance(3, 4) {
+                    cand.push((*r.pick(&near)).clone());
+                } else {
+                    cand.push(r.pick(&names).clone());
+                }
+            }
+            // a respelt duplicate of one candidate (same version value)
+            if let Some((b, v)) = opat::split_name(&cand[0].clone()) {
+                cand.push(format!("{b}-{v}.0"));
+            }
+            if cand.iter().any(|n| !gv::usable(ver_of(n))) {
+                continue;
+            }
+            let splits: Vec<Vec<usize>> = (0..3).map(|_| (0..8).map(|_| r.below(1000)).collect()).collect();
+            cx.check(
+                || format!("corpus pattern {p:?} candidates {cand:?}"),
+                |ev| {
+                    ev.count("workload/corpus");
+                    check_list(ev, p, &cand, &splits)
+                },
+            );
+        }
+    }
+}
